@@ -20,11 +20,14 @@ CHECKS = {
  "C04": ("E", "model_checking", "small-scope exhaustive enumeration: every conflict-free table of 2 (and 3) services over a binding universe, every deploy order plus remove/redeploy/move/restart variants, 12x12 request matrix, against a 25-line reference routing function", "3 C04", "exhaustive small-scope enumeration of service tables and command orders on the real router against a reference routing function", H_NOTE),
  "C08": ("S+H", "model_checking", "engine H: every history up to the depth bound over stop (7 messages), pause, resume, redeploy, rollout, restart x 4 error-page configurations, probe set incl. exact/inexact health path; engine S: a gate command completing while the same service is redeployed, every schedule within the bound", "3 C08", "explicit enumeration of command histories against a gate model + stateless model checking of overlapping commands", S_NOTE + "; " + H_NOTE),
  "C10": ("E+H", "model_checking", "engine E: every cookie value of length<=3 over a 4-letter alphabet x all 101 percentages x allowlists through the real handler chain (monotone, sticky, 100% total, allowlist, cookie shapes vs an independent parser, unchanged by redeploys and restart), share of 20k/100k ids at every percentage; engine H: rollout command histories against the reference model", "3 C10", "exhaustive small-scope enumeration with metamorphic oracles + history enumeration against a reference model", H_NOTE + "; the share clause is decided for the fixed id population only (DESIGN.md section 4)"),
+ "C12": ("F+S", "fault_enumeration", "engine F: every image of the state file after each file operation of the last command of every history up to the depth bound (kill between system calls; thorough: torn in-place writes) restored by the real RestoreLastSavedState and compared with the configuration before/after the command; engine S: overlapping command pairs with file operations as scheduling points, every schedule within the bound", "3 C12", "exhaustive crash-point enumeration over command histories + stateless model checking of overlapping snapshot writers", S_NOTE + "; " + H_NOTE + "; kill model = process death between system calls (data handed to write() survives); power-loss durability (fsync) is not claimed by the property"),
  "C13": ("E", "model_checking", "small-scope exhaustive enumeration of raw requests (every path of <=3/<=4 segments over 9 segment shapes x 4 mounts x 8 raw queries, look-alikes, methods x bodies x 10 responses x header sets x header forwarding) through Server.buildHandler and the real http.Transport to an in-memory echo target; wire request and client response compared byte for byte", "3 C13", "exhaustive small-scope input enumeration through the real handler chain against an independent expectation", H_NOTE),
  "C14": ("E", "model_checking", "level 1: Buffer with every composition of the body into write chunks for all small (memory limit, total limit, length) triples; level 2: buffering on/off x limits x lengths x chunk patterns x endings x {plain, event stream, upgrade} through the handler chain with virtual-time gaps", "3 C14", "exhaustive small-scope enumeration (all chunk compositions) against a bytes.Buffer reference + timing on the virtual clock", H_NOTE),
  "C15": ("F", "fault_enumeration", "every byte offset of the header block (and chunk boundaries, strided body offsets) of 4 scripted responses x {close, stall, garbage}, dial refusal, delays around the target timeout, x buffering x error-page configurations; 502/504 at the exact virtual time with the right page, or a visibly incomplete response; no residue", "3 C15", "exhaustive fault-point enumeration on the real proxy path over an in-memory network", H_NOTE),
  "C16": ("H+E", "model_checking", "histories over root/sub-path services with every TLS/redirect/static-certificate setting, remove, restart; after each: scheme x Host x path/query matrix against the policy computed from the SET of services, GetCertificate for 7 server names; automatic-TLS boundary (host policy, wildcard refusal) without network", "3 C16", "explicit enumeration of command histories against a reference TLS-policy model", H_NOTE + "; certificate issuance (ACME) needs the network and is outside the check"),
+ "C18": ("S+H", "model_checking", "panic/deadlock/hang clauses: every unordered pair of 12 commands running concurrently with client threads (plain, cookie, established upgrade, slow, POST) from running and paused, every schedule within the bounds, logical locks with Go's writer-preference for RWMutex so that lock cycles and recursive read locks surface as deadlocks; every command in every sequential state up to the depth bound. The data-race clause is NOT decidable by this family (scheduler hand-offs are happens-before edges): it is covered by a separate free-running -race companion pass reported as race_pass with exhaustive:false", "3 C18 and 4", "stateless model checking (controlled scheduler) for panics/deadlocks/hangs + history enumeration; data races by a sampling race-detector pass, reported separately", S_NOTE + "; " + H_NOTE + "; race clause: sampling (see DESIGN.md section 4)"),
  "C19": ("E", "model_checking", "23 request endings x method x query x request-id x 5 log-header configurations through Server.buildHandler with a capturing slog handler; exactly one record per request, every field equal to what client and target observed", "3 C19", "exhaustive enumeration of request endings through the real handler chain against observed client/target facts", H_NOTE),
+ "C20": ("E", "model_checking", "exhaustive enumeration on the binary built from the working tree: every combination of prefixed/bare/malformed environment value per run option read off `run --help` plus flag-over-environment and debug observed on a live proxy; all 256 combinations of the deploy flags involved in validation with no proxy listening; exit status of every client command in succeeding and failing states; list rows after each step of a history", "3 C20", "exhaustive enumeration of CLI flag/environment combinations and command outcomes on the built binary", "uninstrumented binary built with go1.26.8 from /repo's working tree; loopback sockets; scratch HOME/XDG_RUNTIME_DIR; a python HTTP server stands in for targets"),
  "C17": ("S", "model_checking", "stall bound 0 so that virtual elapsed time is exact; return time of every command EQUAL to a reference simulator (probe ticker, first 2xx, remaining in-flight time) over probe scripts x in-flight sets x three timeout triples; zero probes to removed/replaced/rejected targets in the settle window", "3 C17", "stateless model checking (controlled scheduler, preemption-bounded, virtual clock) of the implementation against a reference timing simulator", S_NOTE),
 }
 checks = []
@@ -41,6 +44,9 @@ for pid, (eng, cat, text, ref, tech, note) in sorted(CHECKS.items()):
         "technique": tech,
     })
 na = [{"property_id": p["id"], "reason": "check not built yet (work in progress; planned in DESIGN.md section 3)"} for p in props if p["id"] not in CHECKS]
+for c in checks:
+    if c["property_id"] == "C20":
+        c["replay_cmd_template"] = "./check C20 quick   # (the replay file names the failing flag/environment combination)"
 m = {
  "version": 1,
  "setup_cmd": "./setup.sh",
